@@ -2,6 +2,7 @@ package govc
 
 import (
 	"fmt"
+	"os"
 	"go/types"
 	"strings"
 
@@ -599,6 +600,14 @@ func (e *FnEnc) loopHeader(b *ssa.BasicBlock, li *loopInfo, fwd []*ssa.BasicBloc
 	if e.con != nil {
 		lc = e.con.Loops[li.ordinal]
 	}
+	// "ordered": the loop must not be a range over a map (whose order Go randomises)
+	if lc != nil && lc.Ordered != nil && clauseActive(*lc.Ordered, e.prop) {
+		goal := "true"
+		if e.inMapRange(b) && e.mapRangeHeader(b) {
+			goal = "false"
+		}
+		e.oblige(&Obligation{Name: fmt.Sprintf("loop%d.ordered", li.ordinal), Kind: "protocol", Clause: lc.Ordered.Src, Tags: lc.Ordered.Tags, Guard: e.curGuard, Goal: goal})
+	}
 	// 1. invariant on entry
 	entryVals := map[*ssa.Phi]Val{}
 	for _, p := range phis {
@@ -1010,6 +1019,9 @@ func (e *FnEnc) ret(r *ssa.Return) {
 		renv.site = e.curBlock
 		e.bindResults(renv, e.fn.Signature, res)
 		if _, err := renv.EvalBool(c.Expr); err != nil {
+			if os.Getenv("GOVC_DEBUG") != "" {
+				fmt.Fprintf(os.Stderr, "return-ensures %d not in scope at %s: %v\n", k+1, e.posOf(r), err)
+			}
 			continue // the clause speaks about locals that are not in scope at this return
 		}
 		e.returnEnsuresBound[k]++
